@@ -1,6 +1,7 @@
 """C23 — workflow validation accepts exactly the well-formed graphs."""
 from __future__ import annotations
 
+import gc
 import json
 import os
 import random
@@ -32,8 +33,10 @@ EXPLANATION = (
     "reflexive-transitive closure of the edge relation from its seeds (any graph, any adjacency order); validation accepts iff "
     "the declarative WellFormed spec holds; the returned flag is true iff some produced type is an InputRequiredEvent or some "
     "consumed type is a HumanResponseEvent (issubclass); the reported error is the first failing clause in source order; "
-    "isSub is the closure of the direct-base relation. Tie: the tuples of root classes, the order of checks, the _dfs body and "
-    "the shape of the flag expression are regenerated from the source and pinned by C23_source_shape; random workflows built as "
+    "isSub is the closure of the direct-base relation. Tie: the tuples of root classes of every issubclass test, the order of checks "
+    "(in _validate_workflow, Workflow.__init__ and the handler collection), which reachable set and which skip names each graph check "
+    "reads, and the shape of the flag expression are regenerated from the source (independently of local variable names), used by the "
+    "model and pinned by C23_source_shape; random workflows built as "
     "real StepConfig dicts and as real Workflow subclasses with dynamically created event classes are validated by the real code "
     "and by the compiled model (result, error kind and offending names compared), plus build_step_graph's reachable sets, _dfs on "
     "random digraphs and issubclass on the generated class tables. Search: an independent set-based statement of the property in "
@@ -46,6 +49,7 @@ ASSUMPTIONS = [
     "max_recoveries is a natural number in the model (the isinstance(int) half of the check is exercised only on the implementation)",
     "the @step / @catch_error decorators and typing.get_type_hints turn annotations into StepConfig lists as read back from the real objects (the model starts from StepConfig)",
     "Python set iteration order only affects the order of names inside messages; offending sets are compared sorted",
+    "the model's `incoming` adjacency lists are in edge-insertion order, the code's in dict order of `outgoing`: irrelevant, C23_dfs_is_reachability holds for every order",
 ]
 TRUSTED_EXTRA = [
     "harness/gen/validate.py (AST extraction of the class tuples, check order, _dfs body and flag expression into WfModel/GenValidate.lean)",
@@ -88,8 +92,6 @@ def build_classes(bases: list[list[int]]) -> list[type] | None:
         except TypeError:
             res = None
             break
-    if len(_POOL_CACHE) > 4000:
-        _POOL_CACHE.clear()
     _POOL_CACHE[key] = res
     return res
 
@@ -611,14 +613,21 @@ def mutate(rng: random.Random, fam: dict, steps: list[dict], skip: list[str], nx
     elif k == "island":
         if len(fresh_plain) >= 2:
             p, q = rng.sample(fresh_plain, 2)
-            a, b = _mk(next(nxt), [p], [q]), _mk(next(nxt), [q], [p] + ([T] if rng.random() < 0.4 else []))
+            to_stop = rng.random() < 0.5
+            a, b = _mk(next(nxt), [p], [q]), _mk(next(nxt), [q], [p] + ([T] if to_stop else []))
             sk = rng.random()
-            if sk < 0.35:
+            if sk < 0.25:
                 a["skip"], b["skip"] = ["reachability", "dead_end"], ["reachability", "dead_end"]
-            elif sk < 0.5:
-                a["skip"] = ["reachability"]
+            elif sk < 0.45:
+                a["skip"], b["skip"] = ["reachability"], ["reachability"]  # decides iff the island reaches the stop event
+            elif sk < 0.55:
+                a["skip"], b["skip"] = ["dead_end"], ["dead_end"]
             elif sk < 0.65:
-                skip[:] = list({*skip, "reachability", "dead_end"})
+                a["skip"] = ["reachability"]
+            elif sk < 0.75:
+                skip[:] = sorted({*skip, "reachability", "dead_end"})
+            elif sk < 0.82:
+                skip[:] = sorted({*skip, "reachability"})
             steps += [a, b]
     elif k == "sink":
         if fresh_plain and mids:
@@ -627,12 +636,12 @@ def mutate(rng: random.Random, fam: dict, steps: list[dict], skip: list[str], nx
             if rng.random() < 0.3:
                 a["skip"] = ["dead_end"]
             if rng.random() < 0.2:
-                skip[:] = list({*skip, "dead_end"})
+                skip[:] = sorted({*skip, "dead_end"})
             steps += [a, b]
     elif k == "hr_produced":
         rng.choice(steps)["ret"].append(rng.choice(fam["hr"]))
         if rng.random() < 0.3:
-            skip[:] = list({*skip, "terminal_event"})
+            skip[:] = sorted({*skip, "terminal_event"})
     elif k == "wild2":
         steps.append(_mk(next(nxt), [5], [T], handler=True))
         steps.append(_mk(next(nxt), [5], [T], handler=True))
@@ -836,42 +845,7 @@ def _diff(out: Outcome, model: str, ops: list[str], exp: list[str], ctx: list | 
 # --------------------------------------------------------------------------
 
 
-def run(env: Env) -> Outcome:
-    from ..boot import boot
-
-    boot()
-    out = Outcome()
-    out.rule = ("class tables with chains / multiple inheritance x constructed mostly-valid workflows (backbone, unions, None returns, "
-                "HITL events, handlers, skip settings) with one mutation in ~38% + unconstrained small step sets; both as StepConfig dicts "
-                "(_validate_workflow) and as real Workflow subclasses (constructor + validate()); non-trivial = accepted or rejected by a "
-                "check after start/stop inference; distinct by op line")
-    rng = random.Random(env.rng.randrange(1 << 30))
-    cases: list[tuple[dict, str]] = []
-    if env.replay is not None:
-        rc = env.replay["payload"]["case"]
-        if isinstance(rc, dict) and "steps" in rc:
-            cases.append((rc, "replay"))
-    cases += corpus()
-    wpath = os.path.join(VERIF, "harness", "corpus", "c23_hitl_subclass.json")
-    if os.path.exists(wpath):
-        cases.append((json.load(open(wpath))["case"], "witness F21"))
-    n = env.budget(1500, 30000)
-    bases: list[list[int]] = []
-    hiers: list[list[list[int]]] = []
-    for i in range(n):
-        if i % 8 == 0:
-            for _ in range(20):
-                bases = gen_hier(rng)
-                fam = _families(bases)
-                if build_classes(bases) is not None and fam["plain"] and fam["ir"] and fam["hr"]:
-                    break
-            hiers.append(bases)
-        path = "V" if rng.random() < 0.5 else "W"
-        if rng.random() < 0.15:
-            cases.append(gen_random_flow(rng, bases, path))
-        else:
-            cases.append(gen_flow(rng, bases, path))
-
+def run_batch(env: Env, out: Outcome, cases: list[tuple[dict, str]], hiers: list[list[list[int]]], graph_n: int) -> None:
     ops, exp, ctx = [], [], []
     for case, label in cases:
         r = run_case(case)
@@ -894,7 +868,54 @@ def run(env: Env) -> Outcome:
         if v is not None:
             out.violations.append(v)
     _diff(out, "validate", ops, exp, ctx)
-    graph_corr(env, out, [c for c, _l in cases if c["path"] == "V"][: env.budget(400, 6000)])
-    dfs_corr(env, out, env.budget(600, 12000))
+    graph_corr(env, out, [c for c, _l in cases if c["path"] == "V"][:graph_n])
     hier_corr(env, out, hiers)
+    _POOL_CACHE.clear()
+    gc.collect()
+
+
+def run(env: Env) -> Outcome:
+    from ..boot import boot
+
+    boot()
+    out = Outcome()
+    out.rule = ("class tables with chains / multiple inheritance x constructed mostly-valid workflows (backbone, unions, None returns, "
+                "HITL events, handlers, skip settings) with one mutation in ~38% + unconstrained small step sets; both as StepConfig dicts "
+                "(_validate_workflow) and as real Workflow subclasses (constructor + validate()); non-trivial = accepted or rejected by a "
+                "check after start/stop inference; distinct by op line")
+    rng = random.Random(env.rng.randrange(1 << 30))
+    first: list[tuple[dict, str]] = []
+    if env.replay is not None:
+        rc = env.replay["payload"]["case"]
+        if isinstance(rc, dict) and "steps" in rc:
+            first.append((rc, "replay"))
+    first += corpus()
+    wpath = os.path.join(VERIF, "harness", "corpus", "c23_hitl_subclass.json")
+    if os.path.exists(wpath):
+        first.append((json.load(open(wpath))["case"], "witness F21"))
+    run_batch(env, out, first, [c["bases"] for c, _l in first[:1]] + [first[-1][0]["bases"]], 100)
+    n = env.budget(3000, 150000)
+    per_hier = 8 if env.tier == "quick" else 12
+    batch = 3000
+    bases: list[list[int]] = []
+    done = 0
+    while done < n:
+        cases: list[tuple[dict, str]] = []
+        hiers: list[list[list[int]]] = []
+        for i in range(min(batch, n - done)):
+            if i % per_hier == 0:
+                for _ in range(20):
+                    bases = gen_hier(rng)
+                    fam = _families(bases)
+                    if build_classes(bases) is not None and fam["plain"] and fam["ir"] and fam["hr"]:
+                        break
+                hiers.append(bases)
+            path = "V" if rng.random() < 0.5 else "W"
+            if rng.random() < 0.15:
+                cases.append(gen_random_flow(rng, bases, path))
+            else:
+                cases.append(gen_flow(rng, bases, path))
+        done += len(cases)
+        run_batch(env, out, cases, hiers, max(1, len(cases) // 4))
+    dfs_corr(env, out, env.budget(1500, 60000))
     return out
